@@ -73,6 +73,35 @@ def rename_case(c, variant):
     return c
 
 
+def check_vanishing(rep, c):
+    """A variable that is no longer emitted at the last time (its store was
+    deleted, the agent divided): a query returns it for the times at which it was
+    emitted and not for the last one."""
+    n = c['n']
+    if n < 2 or len(c['vars']) < 2:
+        return
+    gone = sorted(c['vars'], key=lambda v: v['p'])[-1]
+    times = [float(i) for i in range(n)]
+    em = RAMEmitter({})
+    for i, t in enumerate(times):
+        row = nested([(v['p'], ATOM[v['vals'][i]]()) for v in c['vars']
+                      if not (i == n - 1 and v is gone)])
+        em.emit({'table': 'history', 'data': dict(row, time=t)})
+    for q in c['queries']:
+        rep.evaluations += 1
+        query = [tuple(p) for p in seq(q['q'])]
+        exp = {t: nested([(pv[0], ATOM[pv[1]]()) for pv in seq(q['res'][i])
+                          if not (i == n - 1 and list(pv[0]) == list(gone['p']))])
+               for i, t in enumerate(times)}
+        got = em.get_data_deserialized(query)
+        if not eq(got, exp):
+            rep.violation({'kind': 'vanishing', 'vars': json.dumps(c['vars'])},
+                          'C18 get_data(query=%s) with %s not emitted at the last time: '
+                          'expected %r got %r' % (query, gone['p'], exp, got), {'case': c})
+            return
+    rep.nontrivial.add('vanishing' + json.dumps(c['vars']))
+
+
 def check_case(rep, c, variant=0):
     c = rename_case(c, variant)
     n = c['n']
@@ -159,6 +188,8 @@ def run(rep, tier, scratch):
         rep.exhaustive = True
     for k, c in enumerate(cases):
         rep.guard(check_case, rep, c, k % 2, what='history', detail=c.get('vars'))
+        if k % 3 == 0:
+            rep.guard(check_vanishing, rep, c, what='vanishing variable', detail=c.get('vars'))
     rep.traces = len(cases)
     if cases:
         rep.add_sample({'n': cases[7]['n'], 'vars': cases[7]['vars'],
